@@ -173,6 +173,7 @@ pub fn gen_world(rng: &mut Rng, p: &GenParams) -> WorldSpec {
         omit_max_retained: false,
         sha256_repo: false,
         clock_plan: vec![],
+        script_wrappers: 0,
     }
 }
 
